@@ -18,7 +18,7 @@
 From Coq Require Import List Bool.
 Import ListNotations.
 From MVGen Require Import Tables_gen.
-From MV Require Import Base.MvBytes Ref.RefCssColors Css.CssBox Css.CssColor Css.CssColorProofs Tables.TablesCheck.
+From MV Require Import Base.MvBytes Ref.RefCssColors Css.CssBox Css.CssColor Css.CssColorProofs Tables.TablesCheck Num.NumModel Num.NumSpec Css.CssDim Css.CssDimSpec Css.CssDimProofs.
 
 Theorem box_shorthand_sound : forall (tok : Type) (teq : tok -> tok -> bool),
   (forall a b, teq a b = true <-> a = b) -> forall vs, box4 tok (box_collapse tok teq vs) = box4 tok vs.
@@ -70,3 +70,44 @@ Print Assumptions css_zero_units_are_lengths.
 Example box_nonvacuous :
   box_collapse_nat [1; 2; 1; 2]%nat = [1; 2]%nat /\ box_collapse_nat [1; 2; 3; 2]%nat = [1; 2; 3]%nat /\ box_collapse_nat [1; 2; 3; 4]%nat = [1; 2; 3; 4]%nat.
 Proof. vm_compute. auto. Qed.
+
+(* ---------- numeric tokens of a declaration value ----------
+   Css/CssDim.v restates what css.go does to number, percentage and dimension tokens (minifyTokens / minifyDimension /
+   minifyNumber / isZeroNumber; tied on 8,000 generated tokens per run, KeepCSS2 on and off, integer properties, inside known
+   and unknown functions).  For EVERY numeric lexeme (Num grammar), either setting of KeepCSS2:
+   the number keeps its value; a percentage stays a percentage of the same value; a dimension is written as a number of the
+   same value followed by its unit lower-cased (units are ASCII case-insensitive) — or as the bare 0, and that only when
+   the value IS zero, the unit is in optionalZeroDimension (all lengths: css_zero_units_are_lengths), and the token is
+   neither in a flex declaration nor inside a known function.
+   The last clause failed on the pinned code: the proof needed "the exponent fits an int64" and its counterexample
+   `width:0.5e9223372036854775808px` -> `width:0` is K129 on the real code (Number gives such a number back unchanged, the
+   zero test looked at the first byte only), repaired; the theorem now holds without that hypothesis.
+   (The bound 10^25 on the length is the fuel of the digit printer of the Num model, shown necessary in C08.) *)
+Theorem css_numbers_keep_their_value : forall keep integer s p,
+  lex_number s = Some p -> zlen s <= 10 ^ 25 ->
+  same_num (num_value (number_token keep integer s)) (Some (value p)).
+Proof. exact number_token_value. Qed.
+Print Assumptions css_numbers_keep_their_value.
+
+Theorem css_percentages_keep_their_value : forall keep s p,
+  lex_number s = Some p -> zlen s <= 10 ^ 25 ->
+  exists s', percentage_token keep (s ++ [37]) = s' ++ [37] /\ same_num (num_value s') (Some (value p)).
+Proof. exact percentage_token_value. Qed.
+Print Assumptions css_percentages_keep_their_value.
+
+Theorem css_dimensions_keep_value_and_unit : forall keep optzero ff drops s u p,
+  lex_number s = Some p -> zlen s <= 10 ^ 25 -> unit_ok u ->
+  let out := dimension_token keep optzero ff drops (s ++ u) in
+  (exists s', out = s' ++ lower_unit u /\ same_num (num_value s') (Some (value p))) \/
+  (out = [48] /\ is_zero_value (Some (value p)) /\ optzero (lower_unit u) = true /\ ff = false /\ drops = true).
+Proof. exact dimension_token_value. Qed.
+Print Assumptions css_dimensions_keep_value_and_unit.
+
+(* non-vacuity, incl. the repaired shape: an out-of-range exponent keeps its unit; 0.0px and 0EM are zeros *)
+Example css_dimensions_nonvacuous :
+  let optzero := fun u => existsb (fun kv => if list_eq_dec Z.eq_dec (fst kv) u then true else false) css_zero_dimensions in
+  dimension_token false optzero false true [48; 46; 48; 112; 120] = [48] /\
+  dimension_token false optzero false true [48; 69; 77] = [48] /\
+  dimension_token false optzero false true [49; 46; 53; 48; 80; 88] = [49; 46; 53; 112; 120] /\
+  dimension_token false optzero true true [48; 112; 120] = [48; 112; 120].
+Proof. vm_compute. repeat split; reflexivity. Qed.
